@@ -27,6 +27,7 @@ THEOREMS = [
     "C13_self_adoption_witness",
     "C13_false_cycle_witness",
     "C13_replace_false_cycle_witness",
+    "C13_constructor_zombie_witness",
 ]
 RULE = (
     "seeded random histories (4-28 ops) over 2-5 composites (strict/non-strict workflows, macros, a macro "
@@ -274,6 +275,9 @@ def corpus():
     wmm = _mk_world([("wf", True), ("macro", True), ("macro", True)], 0)
     yield {"world": wmm, "ops": [["new", 0, "w", None], ["new", 1, "m", 0], ["new", 2, "x", None],
                                  ["add", 1, 2, "w", None]]}
+    # KF-C13-10: a macro with an inner child labelled like the root workflow cannot be constructed inside it,
+    # and the workflow keeps listing the half-built macro
+    yield {"world": wm, "ops": [["new", 0, "u", None], ["new", 1, "m", 0]]}
     # a healthy history through every entry point, 4 levels deep
     big = _mk_world([("wf", True), ("macro", False), ("macroA", False)], 4)  # 0 w,1 m,2 ma,3 u1,4 u2,5..8
     yield {"world": big, "ops": [
@@ -359,10 +363,13 @@ def _variant():
     w1, w2 = mk("wf", "w1"), mk("wf", "w2")
     quiet(lambda: w1.add_child(w2))
     f4 = not any(v is w2 for v in w1.children.values())
-    # F5 self adoption
+    # F5 cycle check by identity: self adoption refused cleanly, equally labelled roots may adopt each other
     m = mk("macro", "m")
     e = quiet(lambda: m.add_child(m))
-    f5 = not isinstance(e, RecursionError) and m.parent is None
+    r1, r2, k = mk("macro", "r"), mk("macro", "r"), mk("macro", "k")
+    r2.add_child(k)
+    e2 = quiet(lambda: k.add_child(r1))
+    f5 = not isinstance(e, RecursionError) and m.parent is None and e2 is None
     # F6 relabelling decided by membership
     wn = mk("wf", "w", False)
     wn.add_child(mk("leaf", "a"))
@@ -451,12 +458,26 @@ def run_impl(case):
                         p is not None and (p not in objs or world[c]["kind"] == "wf")):
                     res = "skip"
                 else:
-                    o = _construct(world[c]["kind"], label, world[c]["strict"], None if p is None else objs[p])
+                    is_macro = world[c]["kind"] in ("macro", "macroA")
+                    u = _inner_of(world, c) if is_macro else None
+                    extra = {"inner": u, "starting": []}
+                    try:
+                        o = _construct(world[c]["kind"], label, world[c]["strict"], None if p is None else objs[p])
+                    except BaseException:
+                        # a constructor that raises after `Lexical.__init__` has made the object a child:
+                        # the half-built object is bound to no name but the parent still lists it
+                        known = {id(v) for v in objs.values()}
+                        if p is not None:
+                            for z in objs[p].children.values():
+                                if id(z) not in known:
+                                    objs[c] = z
+                                    if is_macro and "u" in z.children:
+                                        objs[u] = z.children["u"]
+                        raise
                     objs[c] = o
-                    if world[c]["kind"] in ("macro", "macroA"):
-                        u = _inner_of(world, c)
+                    if is_macro:
                         objs[u] = o.children["u"]
-                        extra = {"inner": u, "starting": [u] if o.starting_nodes == [objs[u]] else None}
+                        extra["starting"] = [u] if o.starting_nodes == [objs[u]] else []
             elif kind == "add":
                 p, c, label, strict = op[1:5]
                 if not comp(p) or c not in objs:
@@ -595,6 +616,8 @@ def model_input(case, impl=None):
             lines.append(op[1])
         elif k == "new":
             ex = st["extra"] if st else {}
+            if ex.get("inner") is None and world[op[1]]["kind"] in ("macro", "macroA") and 0 <= op[1] < len(world):
+                ex = {"inner": _inner_of(world, op[1]), "starting": []}
             if ex.get("inner") is not None:
                 # the macro's constructor: `Lexical.__init__`, then `self.u = UserInput(0)`; the starting
                 # nodes are the observed result of its DAG wiring
